@@ -374,7 +374,11 @@ func (e *Enc) hget(h *Heap, key string) string {
 			switch {
 			case ce.all || star:
 				t = e.declare(fmt.Sprintf("K_%s_%d", key, h.id), sortK)
-			case !in && ce.noalloc:
+			case !in:
+				// No allocated location under this key is in the callee's footprint.
+				// Objects the callee allocates have no observable pre-state (their
+				// slots in the pre-state arrays are unconstrained), so the array can
+				// be taken as unchanged as a whole.
 				t = old
 			case ce.noalloc:
 				term := old
@@ -392,6 +396,10 @@ func (e *Enc) hget(h *Heap, key string) string {
 				idxSort := arrayIndexSort(sortK)
 				e.emit(fmt.Sprintf("(assert (forall ((r!f %s)) (! (=> %s (= (select %s r!f) (select %s r!f))) :pattern ((select %s r!f)))))",
 					idxSort, and(cond...), t, old, t))
+				if strings.HasPrefix(key, "E|") && idxSort == "Int" {
+					// no object lives at reference 0: elems(s) of a nil slice names nothing
+					e.emit(fmt.Sprintf("(assert (= (select %s 0) (select %s 0)))", t, old))
+				}
 			}
 		}
 	}
